@@ -102,6 +102,8 @@ def intact(comments, files):
         if text is None:
             continue
         want = text.strip().split()
+        if want and want[-1].endswith('"'):
+            want[-1] += "."            # rst's quote guard: a final double quote gets a period (intended, see rst.py)
         if not ds[tgt]:
             bad.append((tgt, "no docstring found for this element"))
             continue
@@ -110,3 +112,13 @@ def intact(comments, files):
                 bad.append((tgt, f"comment words {want[:6]!r}... not found in the docstring {d[:120]!r}"))
                 break
     return bad
+
+
+def hazard_signature(target, text):
+    """The class of a comment that is known (DESIGN section 9 nos. 7, 8 and the non-raw variant) to break a docstring."""
+    if '"""' in text:
+        return "docstring.triple_quote_in_comment"
+    if "\\" in text and target == "service":
+        one_line = "\n" not in text.strip()
+        return "docstring.trailing_backslash_in_service_comment" if text.rstrip().endswith("\\") and one_line else "docstring.backslash_in_nonraw_service_docstring"
+    return None
